@@ -37,6 +37,8 @@ def payloads(maxlen):
     for n in range(maxlen + 1):
         for t in itertools.product(SYMS, repeat=n):
             yield "".join(t)
+    for t in ("\ud800", "a\ud800", "\udfffB", "é\ud800\udc00"):  # lone surrogates cannot be encoded: every chain must reject with a Sigma error
+        yield t
     for n in range(1, min(maxlen, 3) + 1):  # payloads with at least one unescaped wildcard
         for t in itertools.product(["a", "é", "\\*"] + WILD, repeat=n):
             if any(x in WILD for x in t):
@@ -95,9 +97,20 @@ def check(res, chain, payload):
     mods = chain.split("|")
     enc = mods[0] if mods[0] in CODECS else None
     b64 = mods[-1] if mods[-1].startswith("base64") else None
-    want = expected_bytes(enc, lit)
     case = {"chain": chain, "payload": payload}
     res["evaluations"] += 1
+    if any(0xD800 <= ord(c) <= 0xDFFF for c in payload):
+        try:
+            item = apply_chain(chain, payload)
+        except SigmaError:
+            res["outcomes"].add(h64("reject-surrogate"))
+            return
+        except Exception as e:
+            add_violation(res, f"{chain}:non-sigma-exception:{type(e).__name__}", case, "SigmaError", repr(e)[:200])
+            return
+        add_violation(res, f"{chain}:unencodable-payload-accepted", case, "SigmaError", repr(item.value)[:200])
+        return
+    want = expected_bytes(enc, lit)
     multibyte = any(ord(c) > 127 for c in lit)
     escaped = "\\" in payload
     if any(not isinstance(p, str) for p in R.parse_sigma_string(payload)):
